@@ -13,7 +13,7 @@ from vlib import common as C
 def main():
     man = json.load(open(os.path.join(C.ROOT, "MANIFEST.json")))
     spec = importlib.util.spec_from_loader("check", loader=None)
-    drivers = {"C09": ["bufread"], "C10": ["bufwrite"], "C12": ["ws"], "C16": ["matcher"], "C17": ["hoptable"],
+    drivers = {"C09": ["bufread", "daemon"], "C10": ["bufwrite"], "C12": ["ws", "daemon"], "C16": ["matcher"], "C17": ["hoptable"],
                "C18": ["utf8"], "C19": ["deflate"], "C20": ["authfile"]}
     targets = []
     for c in man.get("checks", []):
